@@ -99,6 +99,27 @@ def body_sort_nokey(n, perm_id, rev):
     return [e['i'] for e in out_ds] == [keys.index(k) for k in want]
 
 
+def body_sort_repeat(n, perm_id, mode, r0, r1, r2):
+    """several sorts of the *same* dataset object (key-less or with a key function), reverse flags chosen by the solver: every
+    result is ordered as requested - an earlier sort leaves nothing behind"""
+    keys = rt.KEYS[:n]
+    order = list(list(itertools.permutations(range(n)))[perm_id])
+    ds = DictDataset({keys[j]: {'i': j, 'v': 10 - j} for j in order})
+    rt.reached()
+    for rev in (r0, r1, r2):
+        if mode == 'nokey':
+            out_ds = ds.sort(reverse=rev)
+            want = sorted(keys, reverse=bool(rev))
+        else:
+            out_ds = ds.sort(lambda ex: ex['v'], reverse=rev)
+            want = sorted(keys, key=lambda k: 10 - keys.index(k), reverse=bool(rev))
+        if list(out_ds.keys()) != want:
+            return False
+        if [e['i'] for e in out_ds] != [keys.index(k) for k in want]:
+            return False
+    return list(ds.keys()) == [keys[j] for j in order]        # and the sorted dataset itself is untouched
+
+
 def _desc(seq, reverse=False):
     return sorted(seq, key=lambda t: t if not isinstance(t, tuple) else (-t[0], t[1]), reverse=reverse)
 
@@ -204,6 +225,9 @@ FAMILIES = [
            desc='sort(key_fn, reverse): permutation, monotone in the requested direction, keys attached'),
     Family('sort_nokey', body_sort_nokey, ['n', 'perm_id'], [('rev', 'bool')], _conds_nokey, timeout=30,
            desc='sort() without key_fn orders by example key, reverse honoured'),
+    Family('sort_repeat', body_sort_repeat, ['n', 'perm_id', 'mode'], [('r0', 'bool'), ('r1', 'bool'), ('r2', 'bool')],
+           lambda tier, seed: [(n, p, m) for (n, p) in _conds_nokey(tier, seed) if n >= 2 for m in ('nokey', 'key')], timeout=60,
+           desc='three sorts of one dataset object with solver-chosen reverse flags (hidden state between calls)'),
     Family('sort_fn', body_sort_fn, ['n'], XS[:4] + [('rev', 'bool')], lambda tier, seed: [(n,) for n in range(0, 5)], timeout=120,
            desc='custom sort_fn'),
     Family('groupby_hashable', body_groupby_hashable, ['n', 'backing', 'prefix'], [('g0', 'int'), ('g1', 'int'), ('g2', 'int'), ('g3', 'int'), ('g4', 'int')],
